@@ -296,3 +296,11 @@ CHECKS['C19'].update(
 CHECKS['C20'].update(
     text=CHECKS['C20']['text'] + ' B5 (INI parser) the ${...} scan over a value is abandoned only at the end of the text or with a '
          'restart requested, so an unresolved reference never hides the references to its right.')
+CHECKS['C16'].update(
+    text=CHECKS['C16']['text'] + ' Bit laws (TB10-TB14), decided by tabulating the pure arithmetic expressions of the codecs over their '
+         'finite operand domains (staged bytes, table look-ups and the previous/current sextet become free variables; no codec is '
+         'run): the four Base64 alphabet indexes are the four 6-bit fields of the 24-bit group; in state k the Base64 decoder emits '
+         '((previous << 2k) | (current >> (6-2k))) & 0xff, steps k -> (k+1) mod 4 and carries the current sextet unconditionally; '
+         'hex digits are (b >> 4, b & 15) and decode to 16*hi + lo; the URL escape digits are the hex digits of (c >> 4, c & 15) and '
+         'the two-digit helper returns 16*hi + lo for all digit pairs in either case.',
+    technique=CHECKS['C16']['technique'] + '; exhaustive tabulation of closed-form codec expressions over byte/sextet/nibble domains')
